@@ -6,12 +6,12 @@ semantics of coq/theories/Sample/Rint.v) and each is proved equal to the specifi
 (coq/theories/Sample/ConvSpec.v) by one tactic; the consequences (in range, monotone, equilibrium, extremes,
 lossless widening, via-intermediate) are proved from the specification for all formats.
 Tie: translator + correspondence -- the generated model, evaluated by coqc, is compared with the real crate
-(public trait dispatch, debug AND release builds) on every value of 8-bit sources, boundary-structured and
+(public trait dispatch; debug, release AND relchk = optimised + overflow checks on + debug assertions off) on every value of 8-bit sources, boundary-structured and
 random values of the wider ones, out-of-range representation values of the 24/48-bit types; an independent
 i128 oracle of the specification inside the harness covers the large sweeps.
 If a generated proof no longer checks (conv.rs changed) the check searches a concrete failing input
 (DESIGN 5.1): model level (coqc: regenerated function vs specification) and implementation level
-(harness: real function vs i128 oracle)."""
+(harness: real function vs i128 oracle, in all three build profiles)."""
 import json, os, re, sys, shutil, time
 import framework as F
 
@@ -33,6 +33,21 @@ SIGNED = {f: f[0] in "iI" for f in FORMATS}
 REP = {"I24": "i32", "U24": "i32", "I48": "i64", "U48": "i64"}
 PAIRS = [(s, d) for s in FORMATS for d in FORMATS if s != d]
 TEST_CONV = os.environ.get("DASP_CONV_RS")  # TESTING ONLY: pretend /repo's conv.rs were this file
+# build profiles the crate is executed in: index -> (cargo profile, name in reports, model mode code)
+# model mode code: 0 = Checked arithmetic (overflow checks on), 1 = Wrapping.  relchk = optimised build with
+# overflow checks ON and debug assertions OFF: nothing in conv.rs may depend on cfg!(debug_assertions), so the
+# Checked model applies unchanged (a conversion gated on debug_assertions shows up exactly here)
+PROFILES = {0: ("dev", "debug", 0), 1: ("release", "release", 1),
+            2: ("relchk", "relchk (optimised, overflow-checks on, debug-assertions off)", 0)}
+MODES = (0, 1, 2)
+
+
+def pname(mode):
+    return PROFILES[mode][1]
+
+
+def mcode(mode):
+    return PROFILES[mode][2]
 
 
 def fmin(f):
@@ -130,12 +145,16 @@ def gen_items(rng, tier):
         mal = malformed(r, s, n_mal)
         if mal:
             kinds.append(("malformed", mal))
-        for mode in (0, 1):
+        for mode in MODES:
             for kind, vals in kinds:
+                if mode == 2 and kind == "random":
+                    if tier == "quick":
+                        continue
+                    vals = vals[:len(vals) // 3]
                 for part in chunks(vals, 256):
                     items.append(dict(kind=kind, mode=mode, s=s, d=d, vals=part,
                                       line=f"vals {CODE[s]} {CODE[d]} " + " ".join(map(str, part))))
-            if BITS[s] == 16 and tier == "thorough":
+            if BITS[s] == 16 and tier == "thorough" and mode != 2:
                 for lo in range(fmin(s), fmax(s) + 1, 4096):
                     items.append(dict(kind="range", mode=mode, s=s, d=d, lo=lo, n=4096,
                                       line=f"range {CODE[s]} {CODE[d]} {lo} 4096"))
@@ -145,9 +164,9 @@ def gen_items(rng, tier):
 def item_term(it, obs_line):
     obs = F.norm_obs_line(obs_line)
     if it["kind"] == "range":
-        case = f"CRange {it['mode']} {CODE[it['s']]} {CODE[it['d']]} {zt(it['lo'])} {it['n']}%N"
+        case = f"CRange {mcode(it['mode'])} {CODE[it['s']]} {CODE[it['d']]} {zt(it['lo'])} {it['n']}%N"
     else:
-        case = f"CVals {it['mode']} {CODE[it['s']]} {CODE[it['d']]} [" + "; ".join(zt(v) for v in it["vals"]) + "]"
+        case = f"CVals {mcode(it['mode'])} {CODE[it['s']]} {CODE[it['d']]} [" + "; ".join(zt(v) for v in it["vals"]) + "]"
     return f"({case}, [" + "; ".join("[" + "; ".join(zt(x) for x in o) + "]" for o in obs) + "])"
 
 
@@ -162,13 +181,13 @@ def correspond(bins, items, tag):
     """runs the crate (profile per item) and the model; returns (obs per item, bad indices, errors)"""
     obs = [None] * len(items)
     errors = []
-    for mode in (0, 1):
+    for mode in MODES:
         idx = [i for i, it in enumerate(items) if it["mode"] == mode]
         if not idx:
             continue
         rc, outl, err = F.run_bin_parallel(bins[mode], [items[i]["line"] for i in idx])
         if rc != 0 or len(outl) != len(idx):
-            errors.append(("harness", f"profile {mode}: rc={rc} lines={len(outl)}/{len(idx)} stderr={err[-1500:]}"))
+            errors.append(("harness", f"profile {pname(mode)}: rc={rc} lines={len(outl)}/{len(idx)} stderr={err[-1500:]}"))
             return obs, [], errors
         for i, o in zip(idx, outl):
             obs[i] = o
@@ -194,7 +213,7 @@ def pinpoint(bins, it, S):
     for part in chunks(vals, 512):
         rc, outl, _ = F.run_bin(bins[it["mode"]], [f"vals {CODE[it['s']]} {CODE[it['d']]} " + " ".join(map(str, part))])
         impl = F.norm_obs_line(outl[0]) if outl else []
-        _, mo = F.coq_eval("c01_pin", HEADER, f"run_case (CVals {it['mode']} {CODE[it['s']]} {CODE[it['d']]} [" + "; ".join(zt(v) for v in part) + "])")
+        _, mo = F.coq_eval("c01_pin", HEADER, f"run_case (CVals {mcode(it['mode'])} {CODE[it['s']]} {CODE[it['d']]} [" + "; ".join(zt(v) for v in part) + "])")
         model = parse_zll(mo) or []
         for v, a, b in zip(part, impl, model):
             if a != b:
@@ -228,7 +247,7 @@ def oracle_lines(rng, tier, mode, for_search=False):
             for q in range(4):
                 out.append((f"sweep {c} {lo + q * (total >> 2)} {total >> 2} 1", (s, d), total >> 2))
             continue
-        n = (200000 if mode == 1 else 50000) if quick else (1 << 27 if mode == 1 else 1 << 24)
+        n = (200000 if mode == 1 else 50000 if mode == 0 else 30000) if quick else (1 << 27 if mode == 1 else 1 << 24)
         out.append((f"rand {c} {rng.range(1, (1 << 62))} {n}", (s, d), n))
         # a strided sweep across the whole range (every residue of the step is hit by the random part)
         step = (total // (50000 if quick else 1 << 24)) | 1
@@ -374,13 +393,15 @@ def scratch_harness():
                        '[package]\nname = "dasp_verif_harness"\nversion = "0.0.0"\nedition = "2018"\npublish = false\n\n[workspace]\n\n'
                        f'[dependencies]\ndasp_sample = {{ path = "{ds}" }}\n\n'
                        '[profile.dev]\nopt-level = 1\ndebug = false\noverflow-checks = true\ndebug-assertions = true\n\n'
-                       '[profile.release]\nopt-level = 2\ndebug = false\noverflow-checks = false\ndebug-assertions = false\n')
+                       '[profile.release]\nopt-level = 2\ndebug = false\noverflow-checks = false\ndebug-assertions = false\n\n'
+                       '[profile.relchk]\ninherits = "release"\noverflow-checks = true\ndebug-assertions = false\n')
     bins, logs = {}, ""
-    for mode, rel in ((0, False), (1, True)):
-        cmd = ["cargo", "build", "--offline", "--quiet", "--bin", "c01"] + (["--release"] if rel else [])
+    for mode in MODES:
+        prof = PROFILES[mode][0]
+        cmd = ["cargo", "build", "--offline", "--quiet", "--bin", "c01"] + ([] if prof == "dev" else ["--release"] if prof == "release" else ["--profile", prof])
         env = {"RUSTFLAGS": f"--cfg {F.GUARD}", "CARGO_TARGET_DIR": os.path.join(h, "target")}
         rc, out = F.sh(cmd, cwd=h, env=env, timeout=1500)
-        p = os.path.join(h, "target", "release" if rel else "debug", "c01")
+        p = os.path.join(h, "target", "debug" if prof == "dev" else prof, "c01")
         if rc != 0 or not os.path.exists(p):
             return None, out
         bins[mode] = p
@@ -392,8 +413,8 @@ def build_bins():
     if TEST_CONV:
         return scratch_harness()
     bins, logs = {}, ""
-    for mode, rel in ((0, False), (1, True)):
-        ok, log, path = F.harness_build("c01", release=rel)
+    for mode in MODES:
+        ok, log, path = F.harness_build("c01", profile=PROFILES[mode][0])
         if not ok:
             return None, log
         bins[mode] = path
@@ -464,18 +485,22 @@ def search_failing_input(rep, S, bins, rng, tier, why):
     details = dict(why)
     # (b) implementation level: the real functions against the i128 oracle, both profiles
     if bins:
-        for mode in (0, 1):
+        for mode in MODES:
             n, fails, err = run_oracle(bins[mode], oracle_lines(rng.fork(f"search{mode}"), tier, mode, for_search=True))
             details[f"oracle_evaluations_profile{mode}"] = n
             if err:
                 details[f"oracle_error_profile{mode}"] = err
-            for f in fails[:4]:
+            uniq = []
+            for f in fails:
+                if f["pair"] not in [u["pair"] for u in uniq]:
+                    uniq.append(f)
+            for f in uniq[:4]:
                 f = minimise_failure(bins[mode], f)
                 s, d = f["pair"]
                 got = {0: f["got"], 7: f"to_sample/from_sample disagree: {f['got']}", 8: f"panic kind {f['got']}"}[f["tag"]]
-                rep.violation(f"{s}_to_{d}_{'debug' if mode == 0 else 'release'}", dict(
+                rep.violation(f"{s}_to_{d}_{PROFILES[mode][0]}", dict(
                     kind="conversion does not produce the exact power-of-two rescaling", why=why,
-                    function=fn_name(S, s, d), call=f"<{s} as Sample>::to_sample::<{d}>()", profile="debug" if mode == 0 else "release",
+                    function=fn_name(S, s, d), call=f"<{s} as Sample>::to_sample::<{d}>()", profile=pname(mode),
                     input=f["input"], got=got, expected=f["expected"], failing_inputs_in_that_sweep=f["nfail"],
                     harness_line=f"vals {CODE[s]} {CODE[d]} {f['input']}", case=dict(s=s, d=d, mode=mode, vals=[f["input"]])))
                 found_any = True
@@ -569,14 +594,14 @@ def main(rep, tier, seed):
                 rows = pinpoint(bins, it, S)
                 rep.violation(f"case{idx}", dict(
                     kind="model/implementation disagreement: the function translated from conv.rs and the crate's Sample::to_sample differ (translator or semantics fault, or a harness built from another tree)",
-                    function=fn_name(S, it["s"], it["d"]), profile="debug" if it["mode"] == 0 else "release",
+                    function=fn_name(S, it["s"], it["d"]), profile=pname(it["mode"]),
                     disagreements=rows, case=dict(s=it["s"], d=it["d"], mode=it["mode"], vals=[r["input"] for r in rows] or it.get("vals", [])[:8]),
                     harness_line=it["line"][:400], replay="./check.py C01 --replay <this file>"), no_input=not rows)
     times["correspondence_s"] = round(time.time() - t, 1)
     # --- crate vs i128 oracle of the specification (large sweeps); skipped when the search already ran it
     t = time.time()
     if info.get("coq_ok") and terr is None:
-        for mode in (0, 1):
+        for mode in MODES:
             triples = oracle_lines(rng.fork(f"oracle{mode}"), tier, mode)
             n, fails, err = run_oracle(bins[mode], triples)
             stats["oracle"] += n
@@ -588,7 +613,7 @@ def main(rep, tier, seed):
                 s, d = f["pair"]
                 rep.violation(f"oracle_{s}_to_{d}_{mode}", dict(
                     kind="conversion does not produce the exact power-of-two rescaling (crate vs i128 oracle; the Coq proof is about the translated model: translator fault or harness built from another tree)",
-                    function=fn_name(S, s, d), profile="debug" if mode == 0 else "release", input=f["input"], tag=f["tag"], got=f["got"],
+                    function=fn_name(S, s, d), profile=pname(mode), input=f["input"], tag=f["tag"], got=f["got"],
                     expected=f["expected"], case=dict(s=s, d=d, mode=mode, vals=[f["input"]])))
     times["oracle_s"] = round(time.time() - t, 1)
     t = time.time()
@@ -608,7 +633,7 @@ def collect_stats(stats, items, obs):
         s, d = it["s"], it["d"]
         n = it["n"] if it["kind"] == "range" else len(it["vals"])
         stats["values"] += n
-        for key in (f"kind:{it['kind']}", f"profile:{'debug' if it['mode'] == 0 else 'release'}",
+        for key in (f"kind:{it['kind']}", f"profile:{PROFILES[it['mode']][0]}",
                     f"src_bits:{BITS[s]}", "dir:" + ("narrow" if BITS[d] < BITS[s] else "widen" if BITS[d] > BITS[s] else "same-width"),
                     "sign:" + ("s" if SIGNED[s] else "u") + ">" + ("s" if SIGNED[d] else "u")):
             hist[key] = hist.get(key, 0) + n
@@ -623,7 +648,7 @@ def collect_stats(stats, items, obs):
                     seen_nt.add((s, d, v))
     stats["nontrivial"] += len(seen_nt)
     pick = [i for i in (0, len(items) // 2, len(items) - 1) if 0 <= i < len(items)]
-    stats["samples"] = [f"[{'debug' if items[i]['mode'] == 0 else 'release'}] {items[i]['line'][:160]} -> {str(obs[i])[:160]}" for i in pick]
+    stats["samples"] = [f"[{PROFILES[items[i]['mode']][0]}] {items[i]['line'][:160]} -> {str(obs[i])[:160]}" for i in pick]
 
 
 def finish(rep, info, tier, stats, times):
@@ -642,7 +667,7 @@ def finish(rep, info, tier, stats, times):
         "evaluations": stats.get("values", 0) + stats.get("oracle", 0),
         "model_vs_crate_evaluations": stats.get("values", 0), "crate_vs_i128_oracle_evaluations": stats.get("oracle", 0),
         "distinct_nontrivial": stats.get("nontrivial", 0),
-        "rule": "model-vs-crate: all 132 Sample::to_sample pairs x {debug, release}; every value of 8-bit sources, boundary-structured values (MIN, MIN+1, +-2^k+-1 on value and amplitude, -1, 0, 1, MAX-1, MAX, every k) plus random values of wider sources (700 per pair quick / 6000 thorough; thorough: every value of 16-bit sources by digest), out-of-range representation values of I24/U24/I48/U48; crate-vs-oracle: exhaustive <=16-bit (quick), <=24-bit and 32-bit in release (thorough), random + strided sweeps otherwise. non-trivial = distinct (pair, value) in the model-vs-crate set with a narrowing conversion of a negative amplitude that is not a multiple of the step (floor and truncation differ)",
+        "rule": "model-vs-crate: all 132 Sample::to_sample pairs x {debug, release, relchk = optimised with overflow checks on and debug assertions off (8-bit exhaustive, boundary and out-of-range sets; thorough: + a third of the random set; compared with the Checked model)}; every value of 8-bit sources, boundary-structured values (MIN, MIN+1, +-2^k+-1 on value and amplitude, -1, 0, 1, MAX-1, MAX, every k) plus random values of wider sources (700 per pair quick / 6000 thorough; thorough: every value of 16-bit sources by digest), out-of-range representation values of I24/U24/I48/U48; crate-vs-oracle: exhaustive <=16-bit (quick), <=24-bit and 32-bit in release (thorough), random + strided sweeps otherwise. non-trivial = distinct (pair, value) in the model-vs-crate set with a narrowing conversion of a negative amplitude that is not a multiple of the step (floor and truncation differ)",
         "samples": stats.get("samples", []), "input_distribution": stats.get("hist", {}), "disagreements": stats.get("bad", 0),
         "timing": dict(times, coq_s=info.get("coq_s")),
         "float_translation_validation": stats.get("float", {}),
@@ -675,10 +700,10 @@ def replay(path):
     except T.TranslateError as e:
         print("translator:", e)
     F.coq_make("theories/Sample/ConvRun.vo")
-    _, mo = F.coq_eval("c01_replay", HEADER, f"run_case (CVals {mode} {CODE[s]} {CODE[d]} [" + "; ".join(zt(v) for v in vals) + "])")
+    _, mo = F.coq_eval("c01_replay", HEADER, f"run_case (CVals {mcode(mode)} {CODE[s]} {CODE[d]} [" + "; ".join(zt(v) for v in vals) + "])")
     model = parse_zll(mo)
     bad = 0
-    print(f"{s} -> {d}, {'debug' if mode == 0 else 'release'} build, function {j.get('function')}")
+    print(f"{s} -> {d}, {pname(mode)} build, function {j.get('function')}")
     for i, v in enumerate(vals):
         ok_range = fmin(s) <= v <= fmax(s)
         e = spec(s, d, v) if ok_range else None
